@@ -387,7 +387,7 @@ func (u *Unit) structGet(sv Val, f *types.Var, idx int) Val {
 	if si == nil {
 		u.fail("struct selector on non-struct sort %s", sv.S)
 	}
-	return Val{T: fmt.Sprintf("(%s_%s %s)", sv.S, sanitize(f.Name()), sv.T), S: si.fields[idx].sort, GT: f.Type()}
+	return Val{T: fmt.Sprintf("(%s_%s %s)", sv.S, sanitize(si.fields[idx].name), sv.T), S: si.fields[idx].sort, GT: f.Type()}
 }
 
 func (u *Unit) structSet(sv Val, idx int, nv Val) Val {
